@@ -309,7 +309,7 @@ def _worker(item):
 
 
 def run(rec, tier, seed):
-    grids = GRIDS_Q if tier == 'quick' else GRIDS_T
+    grids = GRIDS_Q + GRIDS_T[3:5] if tier == 'quick' else GRIDS_T
     nsig = 40 if tier == 'quick' else 60
     params = {k: list(v) for k, v in PARAMS.items()}
     if seed:
